@@ -120,9 +120,23 @@ def run(ctx):
     nops = 6 + ops.draw(15)
     mutated = 0
     for step in range(nops):
-        kind = ops.draw(8)
+        kind = ops.draw(9)
         if len(pool) >= 8:
             kind = 6 + ops.draw(2)  # only mutate / re-check when the pool is full
+        if kind == 8:
+            # completion in place: the facts of another state with the same value (usually built by another route,
+            # so the fact objects may carry other type annotations) are united into a copy, set by set
+            src = ops.pick(pool)
+            same = [e for e in pool if interp.state_eq(e[1], src[1])]
+            other = ops.pick(same)
+            m = src[0].copy()
+            for key, facts in other[0].state_predicates.items():
+                m.state_predicates.setdefault(key, set()).update(facts)
+            alt = "alt-domain" in src[2] or "alt-domain" in other[2]
+            add(m, src[1], "merged" + ("+alt-domain" if alt else ""))
+            ctx.log("op", step, kind, len(pool))
+            check_pool(ctx, pool, d, p, step)
+            continue
         if kind == 0:  # problem parser, permuted init section
             A = ops.pick(values)
             alt = ops.chance(1, 3)
@@ -146,9 +160,12 @@ def run(ctx):
                 "+alt-domain" if alt or "alt-domain" in src[2] else ""))
         elif kind == 3:  # copy
             src = ops.pick(pool)
-            add(src[0].copy(), src[1], "copy" + ("+alt-domain" if "alt-domain" in src[2] else ""))
+            add(src[0].copy(), src[1], "copy" + ("+alt-domain" if "alt-domain" in src[2] else "") + (
+                "<-merged" if "merged" in src[2] else ""))
         elif kind in (4, 5):  # successor (of a state that was built through the operator's own domain object)
-            cands = [e for e in pool if "alt-domain" not in e[2]]
+            # (not of a state into which the harness itself united duplicate fact objects: deleting a fact from it
+            # is the caller's business)
+            cands = [e for e in pool if "alt-domain" not in e[2] and "merged" not in e[2]]
             if not cands:
                 continue
             src = ops.pick(cands)
@@ -175,7 +192,7 @@ def run(ctx):
             add(st, C.abs_state(st, "Operator.apply", ID), "successor")
             values.append(pool[-1][1])
         else:  # copy-then-mutate (or mutate an existing member in place)
-            src = ops.pick(pool)
+            src = ops.pick([e for e in pool if "merged" not in e[2]])
             if ops.chance(2, 3) and len(pool) < 8:
                 target = [src[0].copy(), src[1], "mutated-copy" + ("+alt-domain" if "alt-domain" in src[2] else "")]
                 pool.append(target)
@@ -254,7 +271,7 @@ def check_pool(ctx, pool, d, p, step):
     # every member still has its recorded value (copy independence, no shared containers)
     texts = []
     for i, (st, A, route) in enumerate(pool):
-        got = C.abs_state(st, f"pool[{i}] ({route})", ID)
+        got = C.abs_state(st, f"pool[{i}] ({route})", ID, caller_made_duplicates="merged" in route)
         if not interp.state_eq(got, A):
             raise Violation("C14/state-value-changed", f"State built by {route}",
                             f"after operation {step}: pool[{i}] {interp.state_diff(got, A)}",
